@@ -197,6 +197,7 @@ func (p *Prog) WithInlinedSet(level int, only map[string]bool) (*Prog, error) {
 	if err := q.inlineSet(level, only); err != nil {
 		return nil, err
 	}
+	q.indexOnceBound() // instructions were cloned into their callers
 	return q, nil
 }
 
@@ -226,7 +227,11 @@ func (p *Prog) buildSSA() error {
 		}
 		return a.String() < b.String()
 	})
+	for _, fn := range p.Funcs {
+		stripCompareConversions(fn)
+	}
 	p.indexDeferred()
+	p.indexOnceBound()
 	return nil
 }
 
